@@ -67,6 +67,7 @@ def generate(rng, tier):
         cs += seq_cases(rng, rbytes(rng, 40), hdrs, "mixed-sequence")
     import hdr_mix
     cs += hdr_mix.cases(rng, Case, [("w", "s"), ("w", "c")], 80 if tier == "quick" else 3000, 160, special_key=special_key)
+    cs += hdr_mix.wrath_size_boundaries(rng, Case)
     K = rbytes(rng, 40)
     def sweep(lo, hi, opc):
         return Case("w.sweep %s %d %d %d" % (K.hex(), lo, hi, opc), "sweep",
